@@ -1,5 +1,6 @@
 //! verif-harness: drives the real Rust core (built from a scratch copy of /repo/sc62015/core)
 //! through its public API.  One case per stdin line, one answer line per case.
+mod regs_cmd;
 mod timer_cmd;
 
 use std::io::{self, BufRead, Write};
@@ -15,6 +16,7 @@ pub fn num(s: &str) -> u64 {
 fn handle(words: &[&str]) -> String {
     match words.first().copied() {
         Some("timer_rs") => timer_cmd::run(&words[1..]),
+        Some("regs_rs") => regs_cmd::run(&words[1..]),
         Some(c) => format!("ERR unknown-command {c}"),
         None => "ERR empty".to_string(),
     }
